@@ -17,8 +17,8 @@ EXCL = {}
 
 # Program-level finding ids by how they manifest.  Engines pick the groups that can
 # affect their oracle; a new finding added here reaches every engine at once.
-RAISES = ("KF-layout-drift-over-shuffle", "KF-minmax-empty", "KF-setitem-int-with-negstep")  # graph build / compute raises (minmax-empty also: wrong block shape)
-VALUES = ("KF-pad-wide", "KF-tensordot-int-dtype", "KF-argext-ties-axis-none", "KF-layout-drift-over-window-reduction")  # computes (or raises), but differs from NumPy
+RAISES = ("KF-layout-drift-over-shuffle", "KF-minmax-empty", "KF-setitem-int-with-negstep", "KF-layout-drift-over-window-reduction")  # graph build / compute raises, graph not closed, or wrong block shapes
+VALUES = ("KF-pad-wide", "KF-tensordot-int-dtype", "KF-argext-ties-axis-none")  # computes, but differs from NumPy
 ALL = RAISES + VALUES
 
 
